@@ -266,11 +266,9 @@ class GriffeLoader:
         """
         seen = seen or set()
         seen.add(module.path)
-        if module.exports is None:
-            return
-
         expanded = []
-        for export in module.exports:
+        # A module without `__all__` has nothing to expand, but its submodules might.
+        for export in module.exports or ():
             # It's a name: we resolve it, get the module it comes from,
             # recurse into it, and add its exports to the current ones.
             if isinstance(export, ExprName):
@@ -289,7 +287,8 @@ class GriffeLoader:
             # It's a string, simply add it to the current exports.
             else:
                 expanded.append(export)
-        module.exports = expanded
+        if module.exports is not None:
+            module.exports = expanded
 
         # Make sure to expand exports in all modules.
         for submodule in module.modules.values():
